@@ -106,7 +106,10 @@ STR_POOL = ['', 'a', 'test', 'Hello World', 'cafÃ©', 'Ã¼â‚¬\U0001d11e', 'æ—¥æœ¬è
             '@@abc\\dir', '\x00', '\x7f\u0080ß¿à €ï¿¿\U00010000\U0010ffff', 'x' * 127, 'y' * 128, ' ', 'â„¢Å’']
 
 
-def gen_value(rng, lay: dict, t, depth=0, edge=False):
+NONASCII_POOL = ['Ã©', 'cafÃ©', 'Ã¼â‚¬\U0001d11e', 'æ—¥æœ¬èªž', 'MotÃ¶rhead\\Ace of Spades\\01 - ÃœnÃ¯code.mp3', 'â„¢Å’', 'Ð–', 'ä¸­' * 43]
+
+
+def gen_value(rng, lay: dict, t, depth=0, edge=False, nonascii=False):
     k = kind_of(lay, t)
     if k[0] in ('int', 'ticket'):
         w, sg = (k[1], k[2]) if k[0] == 'int' else (4, False)
@@ -121,6 +124,8 @@ def gen_value(rng, lay: dict, t, depth=0, edge=False):
     if k[0] == 'bool':
         return rng.random() < 0.5
     if k[0] == 'str':
+        if nonascii:
+            return rng.choice(NONASCII_POOL)
         if rng.random() < 0.7:
             return rng.choice(STR_POOL)
         n = rng.choice([1, 2, 5, 20, 60])
@@ -134,9 +139,11 @@ def gen_value(rng, lay: dict, t, depth=0, edge=False):
     if k[0] == 'array':
         choices = [0, 1, 2, 3] if depth else [0, 0, 1, 1, 2, 3, 5, 9]
         n = rng.choice(choices)
-        return [gen_value(rng, lay, k[1], depth + 1) for _ in range(n)]
+        if nonascii:
+            n = rng.choice([1, 2])
+        return [gen_value(rng, lay, k[1], depth + 1, nonascii=nonascii) for _ in range(n)]
     if k[0] == 'rec':
-        return {'rec': [gen_value(rng, lay, ft, depth + 1) for _, ft in lay['records'][k[1]]]}
+        return {'rec': [gen_value(rng, lay, ft, depth + 1, nonascii=nonascii) for _, ft in lay['records'][k[1]]]}
     raise AssertionError(k)
 
 
@@ -164,11 +171,11 @@ def gen_message(rng, lay: dict, m: dict, mode='mixed'):
             d = default_json(f)
             vals[i] = None if d == 'required' else d
             continue
-        vals[i] = gen_value(rng, lay, f['type'], edge=(mode == 'edge'))
+        vals[i] = gen_value(rng, lay, f['type'], edge=(mode == 'edge'), nonascii=(mode == 'nonascii'))
     # optionals: choose how many of the enabled optional fields are present (a prefix of them)
     opt_idx = [i for i, f in enumerate(fs) if f['optional'] and enabled[i]]
     if opt_idx:
-        if mode in ('full', 'edge'):
+        if mode in ('full', 'edge', 'nonascii'):
             keep = len(opt_idx)
         elif mode == 'none':
             keep = 0
